@@ -233,6 +233,10 @@ func zzC05_concurrent() {
 	symAssert(len(cc.msgIDMutex.ma) == 0, "the per-ID lock is given back")
 }
 
+// C11 view: a message accepted twice from the network (a retransmission) while the first copy is still being
+// handled is not processed twice
+func zzC11_duplicate_concurrent() { zzC05_concurrent() }
+
 func zzC05_selftest() {
 	s := zzNewSession()
 	calls := 0
